@@ -515,6 +515,7 @@ CORPUS += [
 OPSF = "rl4co/utils/ops.py"
 CORPUS += [
     # ---------------------------------------------------------------- C12
+    V("C12", "nar-row-index-instance-major", "rl4co/models/common/constructive/nonautoregressive/decoder.py", "        return batchify(arr, num_starts)", "        return arr.repeat_interleave(num_starts)", "C12.a"),
     V("C12", "batchify-b-major", OPSF, "return x.expand(repeats, *s).contiguous().view(s[0] * repeats, *s[1:])", "return x.unsqueeze(1).expand(s[0], repeats, *s[1:]).contiguous().view(s[0] * repeats, *s[1:])", "C12.a"),
     V("C12", "unbatchify-view-swapped", OPSF, "return x.view(repeats, s[0] // repeats, *s[1:]).permute(1, 0, *range(2, len(s) + 1))", "return x.view(s[0] // repeats, repeats, *s[1:])", "C12.a"),
     V("C12", "unbatchify-loop-not-reversed", OPSF, "    for s in reversed(\n        shape\n    ):  # we need to reverse the shape to unbatchify in the right order", "    for s in shape:", "C12.a"),
